@@ -14,7 +14,9 @@ ROOT = os.path.dirname(os.path.dirname(os.path.abspath(__file__)))
 REPO = os.environ.get("VERIF_REPO", "/repo")
 COQ = os.path.join(ROOT, "coq")
 BUILD = os.path.join(ROOT, "build")
-EVID = os.path.join(ROOT, "evidence")
+# Runs against a scratch copy of the repository (VERIF_REPO set: self-tests, seeded changes) must not
+# overwrite the evidence of the real tree.
+EVID = os.path.join(ROOT, "evidence") if REPO == "/repo" else os.path.join(BUILD, "scratch-evidence")
 REPLAYS = os.path.join(EVID, "replays")
 NCPU = os.cpu_count() or 4
 GUARD = "MANAGARM_FRIGG_VERIF"
